@@ -395,6 +395,19 @@ def run(ctx, tier):
                 for a in comps:
                     if a[0] == 'array':
                         state_kinds = [_kind(x, sb) for x in a[1]]
+            elif n[0] == 'call' and n[1].endswith('CompoundState::new') and len(n[2]) == 1 and state_kinds is None:
+                # `CompoundState::new(vec![..])`: the compound state's own constructor only assembles its argument
+                cb = ctx.core.body(n[1])
+                assembles = False
+                if cb is not None:
+                    for m in walk(_ret_terms(ctx.fn(cb))):
+                        if m[0] == 'agg' and m[1].endswith('CompoundState'):
+                            cf = dict(m[3]).get('components', frozenset())
+                            assembles = bool(cf) and all(q[0] == 'param' and q[1] == 1 for q in cf)
+                if assembles:
+                    for a in n[2][0]:
+                        if a[0] == 'array':
+                            state_kinds = [_kind(x, sb) for x in a[1]]
         if space_kinds is None or weights is None:
             probs.append('the compound is not built from literal vectors of subspaces and weights (unrecognised shape)')
         else:
